@@ -35,6 +35,12 @@ the formula on, per term, the primary sample stamped T if valid, else the fallba
 primary sample itself (fallback not started / not there yet — C19's start-up window); never a sample stamped != T;
 complete: every tick up to the first invalid primary sample of a term with a fallback is emitted.
 
+Time gaps (all kinds): ["W", seconds] = the harness lets that much EVENT-LOOP time pass (virtual clock of
+async_solipsism) before the next action - a stream lagging 31 s, 10 min, hours behind the others at start-up or in the
+steady state.  The property's quantifier bounds no delay ("every interleaving of deliveries that preserves per-stream
+order"), the code under test has no clock, and neither has the model: `W` is dropped from the model's case (a stutter
+step) and the oracle does not look at it - outputs must be exactly those of the same schedule without the waits.
+
 No known-finding regime: the 3-phase engine is expected to hold in full (fixes/C06-3phase-resync.patch); on a tree
 without the patch the witness corpus/C06/three_phase_different_start.json fails (per-phase engines with different
 first common timestamps are zipped without comparing timestamps).
@@ -56,7 +62,8 @@ RULE = ("1-4 gap-free streams per engine with first ticks differing by 0-3, valu
         "primaries valid/invalid in runs, fallback source a gap-free stream starting -2..+4 ticks around the primary, "
         "wall-clock schedules with lagging terms / backlog before attach / random interleavings, so the lazily started "
         "fallback's first sample is earlier than / equal to / later than the primary sample being processed "
-        "(non-trivial = a fallback was started and saw a sample); distinct by canonical JSON hash")
+        "(non-trivial = a fallback was started and saw a sample); 30% of all schedules with 1-3 gaps of 1 s .. 25 h of event-loop time (virtual clock) between deliveries of "
+        "different streams, before the attach and while the engine runs; distinct by canonical JSON hash")
 
 
 
@@ -94,6 +101,8 @@ async def _run_single(case: dict, cap: int | None, observe_backlog: bool) -> dic
                 continue
         elif ev[0] == "attach":
             out_rx = engine.new_receiver(max_size=10000)
+        elif ev[0] == "W":
+            await g.wait_virtual(ev[1])
         elif ev[0] == "attach2":
             out_rx2 = engine.new_receiver(max_size=10000)
         if not await g.settle():
@@ -141,6 +150,8 @@ async def _run_3phase(case: dict) -> dict:
                 continue
         elif ev[0] == "attach":
             out_rx = engine.new_receiver(max_size=10000)
+        elif ev[0] == "W":
+            await g.wait_virtual(ev[1])
         if not await g.settle():
             spinning = True
     await g.settle()
@@ -277,6 +288,8 @@ async def _run_fb(case: dict) -> dict:
         elif ev[0] == "attach":
             out_rx = engine.new_receiver(max_size=10000)
             trace.append(["attach"])
+        elif ev[0] == "W":
+            await g.wait_virtual(ev[1])
         if not await g.settle():
             spinning = True
         trace.append(["quiet"])
@@ -585,6 +598,57 @@ def merge(rng, seqs: list[list[Any]]) -> list[Any]:
     return g.interleave(rng, seqs, burst=rng.choice([0.1, 0.5, 0.85]))
 
 
+WAITS = [1, 29, 30, 31, 31, 45, 600, 7200, 90000]
+
+
+def add_waits(rng, evs: list[Any]) -> list[Any]:
+    """Insert 1-3 time gaps: mostly between two deliveries of DIFFERENT streams (one stream lagging in event-loop
+    time), after the attach as well as before it."""
+    def stream(e):
+        return tuple(e[:-3]) if e[0] in ("D", "F") else None
+
+    cuts = [k for k in range(1, len(evs)) if stream(evs[k - 1]) is not None and stream(evs[k]) is not None
+            and stream(evs[k - 1]) != stream(evs[k])]
+    for _ in range(rng.choice([1, 1, 2, 3])):
+        k = rng.choice(cuts) if cuts and rng.random() < 0.8 else rng.randint(0, len(evs))
+        evs = evs[:k] + [["W", rng.choice(WAITS)]] + evs[k:]
+        cuts = [c + 1 if c >= k else c for c in cuts]
+    return evs
+
+
+def with_gaps(rng, case: dict, p: float = 0.3) -> dict:
+    if rng.random() < p:
+        case["events"] = add_waits(rng, case["events"])
+    return case
+
+
+def gap_tags(case: dict) -> list[str]:
+    ws = [e[1] for e in case["events"] if e[0] == "W"]
+    if not ws:
+        return []
+    att = [e[0] for e in case["events"]].index("attach") if ["attach"] in case["events"] else len(case["events"])
+    after = any(e[0] == "W" and k > att for k, e in enumerate(case["events"]))
+    return ["time-gap:" + ("<=30s" if max(ws) <= 30 else "31s-1min" if max(ws) <= 60 else ">=10min"),
+            "time-gap:" + ("while-running" if after else "before-attach")]
+
+
+def exhaustive_gap_cases():
+    """2-3 streams fed round-robin for 4 ticks, consumer attached first or after tick 0; one time gap of 29 s / 31 s /
+    10 min at every position of the schedule (the lagging stream is whichever comes next)."""
+    import itertools
+
+    for n, wait, att in itertools.product((2, 3), (29, 31, 600), (0, 1)):
+        for order in itertools.permutations(range(n)):
+            base = []
+            for t in range(4):
+                if t == att:
+                    base.append(["attach"])
+                base += [["D", i, t, (t + 1) * 32 ** i, 1] for i in order]
+            for k in range(1, len(base) + 1):
+                yield {"kind": "single", "n": n, "nz": [False] * n, "t0us": 0, "stepus": 1_000_000, "cap": 50,
+                       "events": base[:k] + [["W", wait]] + base[k:]}
+
+
 def gen_single(rng, small: bool = False) -> dict:
     n = rng.choice([1, 2, 2, 3, 3, 4])
     base = rng.choice([0, 0, 2, 5])
@@ -844,7 +908,7 @@ def check_case(ctx: Ctx, case: dict, tight: bool = False) -> tuple[dict, dict]:
         tags, nontrivial = tags_fb(case, obs)
         if obs.get("spinning"):
             tags.append("engine-spinning")
-        ctx.case(case, tags=tags, nontrivial=nontrivial)
+        ctx.case(case, tags=tags + gap_tags(case), nontrivial=nontrivial)
         return model_case(case, obs), impl_out(case, obs)
     tags, nontrivial = tags_of(case)
     if case["kind"] == "single":
@@ -859,7 +923,7 @@ def check_case(ctx: Ctx, case: dict, tight: bool = False) -> tuple[dict, dict]:
         oracle_3phase(ctx, case, obs)
     if obs.get("spinning"):
         tags.append("engine-spinning")
-    ctx.case(case, tags=tags, nontrivial=nontrivial)
+    ctx.case(case, tags=tags + gap_tags(case), nontrivial=nontrivial)
     return model_case(case), impl_out(case, obs)
 
 
@@ -875,12 +939,13 @@ def run(ctx: Ctx) -> None:
     for i in range(n):
         rng = ctx.subrng("case", i)
         case = gen_3phase(rng, small=i % 2 == 0) if i % 4 == 3 else gen_single(rng, small=i % 3 == 0)
+        case = with_gaps(rng, case)
         m, o = check_case(ctx, case, tight=(i % 5 == 0))
         cases.append(m)
         outs.append(o)
     for i in range(ctx.budget(2000, 20000)):
         rng = ctx.subrng("fb", i)
-        m, o = check_case(ctx, gen_fb(rng, small=i % 3 == 0))
+        m, o = check_case(ctx, with_gaps(rng, gen_fb(rng, small=i % 3 == 0)))
         cases.append(m)
         outs.append(o)
     if ctx.tier == "thorough":
@@ -889,6 +954,10 @@ def run(ctx: Ctx) -> None:
             cases.append(m)
             outs.append(o)
         for case in exhaustive_fb_cases():
+            m, o = check_case(ctx, case)
+            cases.append(m)
+            outs.append(o)
+        for case in exhaustive_gap_cases():
             m, o = check_case(ctx, case)
             cases.append(m)
             outs.append(o)
